@@ -471,7 +471,7 @@ func remapType(t *TypeRef, from, to int) *TypeRef {
 	if t == nil {
 		return nil
 	}
-	return &TypeRef{Base: t.Base, Key: remapType(t.Key, from, to), Elem: remapType(t.Elem, from, to), Ref: remapRef(t.Ref, from, to)}
+	return &TypeRef{Base: t.Base, Key: remapType(t.Key, from, to), Elem: remapType(t.Elem, from, to), Ref: remapRef(t.Ref, from, to), Slice: t.Slice}
 }
 
 func remapVal(v *ConstVal, from, to int) *ConstVal {
